@@ -43,6 +43,8 @@ pub struct OracleState {
     pub parked_pending: std::collections::BTreeSet<usize>,
     /// C07: (limit, objects counted so far, returns still in flight)
     pub deferred_admissions: Vec<(usize, usize, Vec<u32>)>,
+    /// overlapping resizes whose order could not be read off the books yet
+    pub max_ambiguous: Option<Vec<usize>>,
 }
 
 impl Default for OracleState {
@@ -71,6 +73,7 @@ impl Default for OracleState {
             last_resize_done: None,
             parked_pending: Default::default(),
             deferred_admissions: Vec::new(),
+            max_ambiguous: None,
         }
     }
 }
@@ -106,6 +109,14 @@ pub fn on_call(w: &mut MWorld, ci: usize) {
     }
     if is(w, "C13") {
         c13_on_call(w, ci);
+    }
+    if is(w, "C09") && kind == CallKind::Pred {
+        // judged at the moment of the call: never a checked-out object
+        if let Some(id) = w.calls[ci].obj {
+            if w.objs[id as usize].holder.is_some() {
+                w.violate("C09", "retain_never_touches_checked_out", format!("predicate was called for checked-out object #{id}"));
+            }
+        }
     }
     if is(w, "C07") && kind == CallKind::Create {
         c07_on_create(w, ci);
@@ -247,7 +258,31 @@ pub fn on_resize_done(w: &mut MWorld, opi: usize, n: usize, closed: bool) {
         if n < cur {
             w.orc.shrunk = true;
         }
-        w.max_size_log.push((engine::current_step(), n));
+        // Overlapping resizes: the one that took the lock last wins, which need not be the one
+        // that returns last. Both orders are legal, so the pool's own max_size decides between
+        // the candidates.
+        let me = w.ops[opi].clone();
+        let mut candidates = vec![n];
+        for o in w.ops.iter() {
+            if let Op::Resize { n: other } = o.op {
+                if o.actor != me.actor && o.return_step.unwrap_or(u64::MAX) >= me.invoke_step && o.invoke_step <= engine::current_step() {
+                    candidates.push(other);
+                }
+            }
+        }
+        let mut effective = n;
+        if candidates.len() > 1 {
+            match snapshot(w) {
+                Some(sn) if candidates.contains(&sn.s.max_size) => effective = sn.s.max_size,
+                Some(_) => {}
+                // books locked right now: resolved at the next step at which they can be read
+                None => w.orc.max_ambiguous = Some(candidates.clone()),
+            }
+        }
+        if effective < cur {
+            w.orc.shrunk = true;
+        }
+        w.max_size_log.push((engine::current_step(), effective));
     }
     let v = c07_resize_done(w, opi, n, closed);
     if is(w, "C07") && !w.draining {
@@ -331,7 +366,23 @@ fn absorb_site_log(w: &mut MWorld) {
     let new = engine::site_log_since(w.orc.site_log_pos);
     w.orc.site_log_pos += new.len();
     let permit = engine::site_index("managed.get.permit").unwrap() as u16;
+    let pre_acquire = engine::site_index("sync.sem.pre_acquire").unwrap() as u16;
     for (step, actor, site) in new {
+        if site == pre_acquire && actor != CONTROLLER {
+            // the wait timer of a blocking get is created in the very step that reaches the
+            // semaphore for the first time
+            if let Some(Some(opi)) = w.cur_op.get(actor) {
+                let opi = *opi;
+                if matches!(w.ops[opi].op, Op::Get { .. }) && w.ops[opi].wait_start_ms.is_none() {
+                    w.ops[opi].wait_start_ms = Some(engine::now_ms());
+                    if let Some(ms) = w.ops[opi].eff.0 {
+                        if ms > 0 {
+                            engine::register_deadline(ms);
+                        }
+                    }
+                }
+            }
+        }
         if site == permit && actor != CONTROLLER {
             if let Some(Some(opi)) = w.cur_op.get(actor) {
                 if w.ops[*opi].permit_step.is_none() {
@@ -395,6 +446,14 @@ pub fn after_step(w: &mut MWorld, _info: &SimInfo) -> Option<Violation> {
                 "out_over_limit",
                 format!("{} objects are checked out, max_size is {max}", w.n_out()),
             ));
+        }
+    }
+    if let (Some(sn), Some(c)) = (&snap, w.orc.max_ambiguous.clone()) {
+        if w.orc.resizes_in_progress == 0 {
+            if c.contains(&sn.s.max_size) && w.orc.closed_step.is_none() {
+                w.max_size_log.push((engine::current_step(), sn.s.max_size));
+            }
+            w.orc.max_ambiguous = None;
         }
     }
     if let Some(sn) = &snap {
@@ -1425,12 +1484,6 @@ pub fn c09_retain_done(w: &mut MWorld, opi: usize) -> Option<Violation> {
         }
         w.cnt.probe("retain_idle_set_checked");
     }
-    // never a checked-out object
-    for (id, _, _) in &preds {
-        if w.objs[*id as usize].holder.is_some() {
-            return c09("retain_never_touches_checked_out", format!("predicate was called for checked-out object #{id}"));
-        }
-    }
     // capacity unchanged (differential, nothing else running)
     if !overlapped(w, opi) {
         if let (Some((s0, _, _)), Some(sn)) = (op.snap0.clone(), snapshot(w)) {
@@ -1617,7 +1670,7 @@ pub fn c07_on_create(w: &mut MWorld, ci: usize) {
     }
     let Some(opi) = c.op else { return };
     let Some(s) = w.orc.last_resize_done else { return };
-    if w.orc.resizes_in_progress > 0 || w.orc.close_invoked {
+    if w.orc.resizes_in_progress > 0 || w.orc.close_invoked || w.orc.max_ambiguous.is_some() {
         return;
     }
     let op = &w.ops[opi];
@@ -1681,7 +1734,7 @@ pub fn c07_return_done(w: &mut MWorld, opi: usize, id: u32) -> Option<Violation>
     }
     let op = w.ops[opi].clone();
     let s = w.orc.last_resize_done?;
-    if op.invoke_step <= s || w.orc.resizes_in_progress > 0 || w.orc.close_invoked || overlapped(w, opi) {
+    if op.invoke_step <= s || w.orc.resizes_in_progress > 0 || w.orc.close_invoked || overlapped(w, opi) || w.orc.max_ambiguous.is_some() {
         return None;
     }
     let kept = w.objs[id as usize].destroyed.is_none();
